@@ -1,5 +1,5 @@
 """Registry: property id -> check function(prop, tier, verdict) -> (level, coverage, assumptions)."""
-import eng_sess, eng_hub, eng_disp, eng_corr, eng_data, eng_plug, eng_generic
+import eng_sess, eng_hub, eng_disp, eng_corr, eng_data, eng_plug, eng_generic, eng_race
 
 SESS_ASSUME = [
     'the in-memory connection of the harness behaves like a reliable byte stream (delivered bytes stay readable after the peer closes; writes fail after a close)',
@@ -78,6 +78,11 @@ def c09(prop, tier, verdict):
     cov['traces_validated_against_impl'] += pcov['plug_traces']
     cov['evaluations'] += pcov['plug_scenarios']
     cov['distinct_nontrivial'] += pcov['plug_nontrivial']
+    # hooks must also fire at most once when a message is re-written after a redial
+    rcov, _ = eng_generic.run(prop, tier, verdict, 'Redial', 'redial', 'PRedial', lambda line, s: 'redialhooks:%s:%s.%s' % (line.get('ev'), line.get('pl'), line.get('stage')),
+                              consts={'MaxOps': '7', 'Budgets': '{0, 2, 99}'}, extra_cfg='VIEW view', min_count=500, label='redial')
+    cov['redial_traces'] = rcov['traces_validated_against_impl']
+    cov['traces_validated_against_impl'] += rcov['traces_validated_against_impl']
     return 'model_checking', cov, DISP_ASSUME + ['placement trees: 0-2 global-left, 0-2 global-right, 0-3 nested groups with 0-1 plugin, 1-2 sibling handlers with 0-1 plugin, optionally one global plugin appended after the routes exist (its hooks on route chains are unconstrained)']
 
 def c16(prop, tier, verdict):
@@ -196,8 +201,15 @@ def c13(prop, tier, verdict):
                                    'fault sequences = every transition of spec/Redial.tla (histories of at most 7 / 8 operations: call, in-flight call, cut, server down/up, SetID, quiescence wait), expectations only where the statement fixes the outcome (calls racing with a redial and calls on an ended session with the server back are left open)',
                                    'which goroutine (reader or writer) detects a loss is left to the run: a loss during an idle period is detected by the reader, a call issued right after a fault may detect it in its write']
 
+def c14(prop, tier, verdict):
+    cov, _ = eng_race.run(prop, tier, verdict)
+    return 'exploration', cov, ['the verdict comes from the Go race detector observing real executions; TLA+ contributes the programs (workload cells, session behaviours, index histories)',
+                                'a data race that needs a schedule the generated programs do not reach is not found',
+                                'reports with a stack in the harness or in third-party modules are ignored']
+
 CHECKS = {
     'C01': c01,
+    'C14': c14,
     'C13': c13,
     'C10': c10,
     'C06': c06,
